@@ -280,11 +280,19 @@ instance : Crypto Term where
   sameEnc c d := encT c == encT d
   empty := lit []
 
+/-- the symbolic instance is lawful; terms carry no sizes, so every term is a key, a nonce and a
+ticket body -/
 instance : LawfulCrypto Term where
+  okKey _ := True
+  okNonce _ := True
+  okTicketBody _ _ := True
+  okKey_macNonce _ _ := trivial
+  okKey_macCav _ _ _ _ := trivial
+  okKey_finalize _ := trivial
   ctEq_iff a b := by simp [Crypto.ctEq]
   kidEq_iff a b := by simp [Crypto.kidEq]
-  unsealKey_sealKey t n rn := by simp [Crypto.unsealKey, Crypto.sealKey, unsealKeyT]
-  openTicket_sealTicket ka n dk cs := by
+  unsealKey_sealKey t n rn _ _ := by simp [Crypto.unsealKey, Crypto.sealKey, unsealKeyT]
+  openTicket_sealTicket ka n dk cs _ _ _ := by
     simp [Crypto.openTicket, Crypto.sealTicket, openTicketT, ticketT, decTL_encTL]
   hasPrefix_bindId t := by simp [Crypto.hasPrefix, Crypto.digest, Crypto.bindId]
   sameEnc_mac c d t h := by
